@@ -2,7 +2,7 @@
 Driver ops for the client state machine (C14) and the profile cache (C15).
 
   cache.run   <disk> <hist>                  → per call: result, DTPROFUP sent, disk after
-  cache.sched <disk> <behs> <sched>          → per action: disk after; then per process: result, sent
+  cache.sched <disk> <behs> <sched>          → per action: disk after; then per process: result, sent, has-a-temp-file
   cache.key   <org?> <fid?>                  → file name
   spec.cache  <abs> <hist>                   → per call: abstract state after, required result, required DTPROFUP
   client.run  <clients> <adv> <script> <history>   → per operation: result, requests, cache file after
@@ -197,7 +197,8 @@ def handle : Handler := fun op args =>
     let (sN, views) := sched.foldl (fun (acc : Cache.Sys × List SExp) a =>
       let s' := acc.1.act a; (s', acc.2 ++ [encView (view s'.disk)])) (s0, [])
     let procs := sN.procs.map fun p =>
-      SExp.list [match p.result with | some r => encRet r | none => .atom "running", encSent p.sent]
+      SExp.list [match p.result with | some r => encRet r | none => .atom "running", encSent p.sent,
+                 encBool p.tmp.isSome]
     pure (replyOk [.list views, .list procs])
   | "cache.key", [org, fid] => do
     let org ← decOpt decStr org
